@@ -538,6 +538,12 @@ def check_tables(tier, rng, okx):
     arch = testutil.create_arch()
     out = {"evals": 0, "tables": 0, "viol": {}, "corr": {}, "samples": [], "dist": {}, "nontrivial": set()}
     n = {"quick": 1, "thorough": 25}[tier]
+    # one generator per section, all derived from the run's seed: adding cases to one section never moves the
+    # draws of another (a seeded change was once detected only by the luck of a draw that later moved)
+    base_seed = rng.getrandbits(64)
+
+    def section_rng(tag):
+        return random.Random("%d/%s" % (base_seed, tag))
 
     def dt_of(name):
         return DataType.int8 if name == "int8" else DataType.uint8 if name == "uint8" else DataType.int16
@@ -547,6 +553,7 @@ def check_tables(tier, rng, okx):
         return rng.choice([lo, hi, (lo + hi + 1) // 2, rng.randrange(lo, hi + 1), rng.randrange(lo, hi + 1)])
 
     # ---- leaky relu -------------------------------------------------------------------------
+    rng = section_rng("lrelu")
     lr = [("int8", 0.05, -128, 0.05, -128, 0.1), ("int8", 0.02, 3, 0.04, -5, 0.2), ("uint8", 0.1, 128, 0.05, 100, 0.3),
           ("int8", 0.007, 0, 0.9, 0, 0.01), ("int8", 0.5, -20, 0.004, 10, 0.5), ("int8", 0.03, 10, 0.03, 10, -0.25),
           ("uint8", 0.03, 0, 0.03, 255, 1.5), ("int8", 0.05, 127, 0.05, -128, 0.2)]
@@ -610,6 +617,7 @@ def check_tables(tier, rng, okx):
     out["dist"]["lrelu_tables"] = len(lr)
 
     # ---- PRELU with a constant alpha that is the same in every channel -----------------------------
+    rng = section_rng("prelu")
     # convert_prelu turns it into a LeakyRelu carrying attrs["alpha_scaling"] = (alpha_code - alpha_zp, scale, shift),
     # convert_lrelu -> convert_lrelu_to_lut builds the table from that triple.
     # (dtype, ifm_scale, zp_in, ofm_scale, zp_out, alpha tensor scale, alpha zero point, alpha code)
@@ -690,6 +698,7 @@ def check_tables(tier, rng, okx):
     out["dist"]["prelu_tables"] = n_pr
 
     # ---- Maximum(x, Mul(x, c)) -> LeakyRelu table (convert_mul_max_to_abs_or_lrelu), both operand orders -------
+    rng = section_rng("mulmax")
     from ethosu.vela.operation import Operation
     from ethosu.vela.tensor import QuantizationParameters, Tensor, create_const_tensor
 
@@ -824,6 +833,7 @@ def check_tables(tier, rng, okx):
     out["dist"]["mulmax_decisions"] = n_kind
 
     # ---- hard swish -------------------------------------------------------------------------
+    rng = section_rng("hardswish")
     hs = [("int8", 0.005, -128, 0.04, -128), ("int8", 0.011, 0, 0.011, 0), ("uint8", 0.003, 128, 0.003, 128), ("int8", 0.0117, -3, 0.02, 5),
           ("int8", 0.04, -128, 0.04, -128), ("int8", 0.0234, 10, 0.03, -10), ("uint8", 0.1, 0, 0.05, 0), ("int8", 0.0118, -128, 0.02, -128)]
     for _ in range(10 * n):
@@ -889,8 +899,14 @@ def check_tables(tier, rng, okx):
     out["dist"]["hardswish_crashes"] = n_crash
 
     # ---- optimise_quantize: constant folding of same-width requantisation ------------------------
+    rng = section_rng("quantize_fold")
     rq = [("int8", 0.05, -128, 0.1, -128), ("int8", 0.02, 3, 0.013, -5), ("int8", 0.5, 0, 0.004, 0), ("int16", 0.001, 0, 0.0007, 0),
-          ("int16", 0.01, 0, 0.02, 0), ("int8", 0.1, 127, 0.1, -128)]
+          ("int16", 0.01, 0, 0.02, 0), ("int8", 0.1, 127, 0.1, -128),
+          # pinned: scale pairs whose float32 quotient differs from the double quotient (the Q31 multiplier moves by tens of
+          # units), with the int16 constants on which that changes the folded value (added below as discriminating constants)
+          # (found by a search over scale pairs: 124, 68 and 56 of the 65536 int16 codes discriminate)
+          ("int16", 0.3733404576778412, 0, 0.4346107840538025, 0), ("int16", 0.007658849935978651, 5, 0.012321320362389088, -3),
+          ("int16", 0.10379436612129211, 0, 0.1710173338651657, 0)]
     for _ in range(8 * n):
         dtn = rng.choice(["int8", "int8", "int16"])
         si = rand_scale(rng)
@@ -901,7 +917,19 @@ def check_tables(tier, rng, okx):
         if dtn == "int8":
             vals = list(range(-128, 128))
         else:
-            vals = sorted(set([I16MIN, I16MIN + 1, -1, 0, 1, I16MAX - 1, I16MAX] + [bias16(rng) for _ in range(249)]))
+            vals = set([I16MIN, I16MIN + 1, -1, 0, 1, I16MAX - 1, I16MAX] + [bias16(rng) for _ in range(249)])
+            # discriminating constants: the codes of the whole int16 range on which another evaluation order of the
+            # effective scale (quotient taken in float32, as np.float32 / np.float32 does) gives a different folded value.
+            # They depend only on the scale pair, not on any draw.
+            m_d, t_d = ref_quantize_multiplier(float(f32(si)) / float(f32(so)))
+            m_f, t_f = ref_quantize_multiplier(float(f32(si) / f32(so)))
+            if (m_d, t_d) != (m_f, t_f) and -15 <= t_d <= 15:
+                qlo, qhi = I16MIN, I16MAX
+                disc = [v for v in range(I16MIN, I16MAX + 1)
+                        if ref_requant(v, zi, zo, m_d, t_d, qlo, qhi) != ref_requant(v, zi, zo, m_f, t_f, qlo, qhi)]
+                vals.update(disc[:24] + disc[-24:])
+                out["dist"]["quantize_fold_discriminating_constants"] = out["dist"].get("quantize_fold_discriminating_constants", 0) + min(len(disc), 48)
+            vals = sorted(vals)
         npv = np.array(vals, dtype=np.int8 if dtn == "int8" else np.int16)
         op, qmin, qmax = mk_op(Op.Quantize, dt_of(dtn), si, zi, so, zo, const_values=npv)
         dsi, dso = float(f32(si)), float(f32(so))
@@ -924,7 +952,9 @@ def check_tables(tier, rng, okx):
             i = next(j for j in range(len(want)) if j >= len(got) or got[j] != want[j])
             out["viol"].setdefault(("quantize_fold", "value"), (dict(table="quantize_fold", failure="value"),
                                                                dict(key, constant=vals[i], observed=got[i] if i < len(got) else None, required=want[i]),
-                                                               "folded quantize constant differs from the reference Requantize kernel"))
+                                                               "folded %s quantize constant %d (ifm_scale %r zp %d -> ofm_scale %r zp %d) is %s, the reference "
+                                                               "Requantize kernel (double(s_in)/double(s_out)) gives %d" % (
+                                                                   dtn, vals[i], dsi, zi, dso, zo, got[i] if i < len(got) else None, want[i])))
         vm, vs = scaling.quantise_scale(np.float64(f32(si)) / np.float64(f32(so)))
         mcases.append([zi, zo, int(vm), int(vs), qmin, qmax] + vals)
         minfo.append((key, got))
@@ -936,6 +966,7 @@ def check_tables(tier, rng, okx):
     out["dist"]["quantize_fold_tensors"] = len(rq)
 
     # ---- softmax exp table (softmax.py: saturating_rounding_mul32 + exp_on_negative_values on Python ints) -----
+    rng = section_rng("softmax")
     from ethosu.vela.softmax import SoftMax
     sm = [(1.0, 0.05), (1.0, 1 / 256), (1.0, 0.1), (2.0, 0.03), (0.5, 0.2), (1.0, 1.0)]
     sm += [(rng.choice([1.0, 1.0, 0.25, 4.0]), rand_scale(rng, -9, 1)) for _ in range(6 * n)]
